@@ -261,6 +261,9 @@ structure LockFacts where
   noProgress : Bool
   yield : Bool
   take : Bool          -- the matching-id exit keeps the lock and hands it to the caller
+  leave : Bool         -- every exit of waitResponse passes through c.leave(): the in-flight count is given back;
+                       -- otherwise a later foreign-id response is not recognised as a lone-waiter desync
+                       -- (io.ErrNoProgress) and the waiter spins on the yield path forever
   doBody : Bool        -- (*Conn).do unlocks after the read closure, on every path
   apiVersions : Bool
   batchHandover : Bool -- ReadBatchWith puts the lock into the Batch it returns
@@ -268,7 +271,7 @@ structure LockFacts where
   deriving Repr, DecidableEq
 
 def LockFacts.all (f : LockFacts) : Bool :=
-  f.peekErr && f.noProgress && f.yield && f.take && f.doBody && f.apiVersions && f.batchHandover && f.batchClose
+  f.peekErr && f.noProgress && f.yield && f.take && f.leave && f.doBody && f.apiVersions && f.batchHandover && f.batchClose
 
 inductive ExitPath where
   | notSent | peekErr | noProgress | body
@@ -289,10 +292,11 @@ def blocked : Outcome := .fail (.other "blocked forever in rlock.Lock()")
 def released (lf : LockFacts) (viaDo : Bool) : ExitPath → Bool
   | .notSent => true
   | .peekErr => lf.peekErr
-  | .noProgress => lf.noProgress
+  | .noProgress => lf.noProgress && lf.leave
   | .body => lf.take && (if viaDo then lf.doBody else lf.apiVersions)
 
-/-- one exchange on a Conn with its read lock: `cl.2` = the lock is held by nobody who will ever release it -/
+/-- one exchange on a Conn with its read lock: `cl.2` = the Conn is wedged (the lock is held by nobody who will ever
+release it, or the in-flight count leaked and a foreign response is waiting): a sent request never returns -/
 def connDoL (lf : LockFacts) (inflight : Bool) (o : OpSpec) (v : Nat) (topic : Bytes) (cl : Conn × Bool) : Outcome × (Conn × Bool) :=
   if cl.2 && exitPath inflight cl.1 ≠ .notSent then (blocked, cl)
   else
